@@ -178,15 +178,16 @@ def secularize_generic(cx, N, how):
 
 @harness("C01", "transform_generic",
          quick=[dict(N=2, td=False), dict(N=2, td=True), dict(N=3, td=False, plane=[0, 1]),
-                dict(N=3, td=False, plane=[1, 2])],
-         thorough=[dict(N=2, td=False), dict(N=2, td=True)] +
+                dict(N=3, td=False, plane=[1, 2]), dict(N=3, td=False)],
+         thorough=[dict(N=2, td=False), dict(N=2, td=True), dict(N=3, td=False), dict(N=3, td=True)] +
                   [dict(N=3, td=t, plane=p) for t in (False, True) for p in ([0, 1], [0, 2], [1, 2])] +
                   [dict(N=4, td=False, plane=p) for p in ([0, 1], [1, 3], [2, 3])],
          functions=[F_REL + ":RelaxationTensor.transform", F_TDR + ":TDRedfieldRelaxationTensor.transform"],
-         bound="arbitrary tensor with the identities; N=2: S any element of O(2); N=3 (thorough 4): S a plane "
-               "rotation in each index plane times arbitrary column signs (generators of O(N)); "
+         bound="arbitrary tensor with the identities; N=2: S any element of O(2); N=3: S any element of O(3) (product of "
+               "three Givens rotations times column signs; decided by the normal-form prover) and the plane "
+               "rotations separately; N=4 (thorough): plane rotations times signs (generators of O(4)); "
                "inverse obtained through numpy.linalg.inv (stub: transpose of the tagged orthogonal matrix)",
-         out="non-orthogonal transformation matrices; composite rotations for N>=3 (they are successive "
+         out="non-orthogonal transformation matrices; composite rotations for N>=4 (they are successive "
              "applications of the generators)")
 def transform_generic(cx, N, td, plane=None):
     from quantarhei.qm.liouvillespace.relaxationtensor import RelaxationTensor
